@@ -276,10 +276,11 @@ class Engine(CoreMixin, ExprMixin, CallMixin, StmtMixin, BuiltinMixin):
     def vc_text(self, o, with_check=True, rep=None):
         decls, glob, esc = rep.ctx if rep is not None else (self.decls, self.globals_assumed, self.escape_facts)
         body = list(decls)
-        for f in glob + esc:
+        facts = list(glob + esc) + list(o.pc)
+        if o.expect == "unsat" and getattr(self, "slice_facts", True):
+            facts = self.relevant(facts, o.goal)
+        for f in facts:
             body.append(f"(assert {f})")
-        for p in o.pc:
-            body.append(f"(assert {p})")
         if o.expect == "unsat":
             body.append(f"(assert (not {o.goal}))")
         if with_check:
@@ -292,10 +293,37 @@ class Engine(CoreMixin, ExprMixin, CallMixin, StmtMixin, BuiltinMixin):
             parts.append(smt.spec_module("mod_rbd"))
             for lem in getattr(contract, "lemmas", []) or []:
                 parts.append(smt.spec_module("lemma_" + lem))
+        if "outcome_of" in btext:
+            parts.append(smt.spec_module("mod_outcome"))
+            body = [b for b in body if not b.startswith("(declare-fun attr_target ") and not b.startswith("(declare-fun attr_result ") and not b.startswith("(declare-fun attr_error ")]
+            btext = "\n".join(body)
         if "is_json" in btext:
             parts.append(smt.spec_module("mod_json_elem"))
         parts.append(btext)
         return "\n".join(parts) + "\n"
+
+    _sym = None
+
+    def relevant(self, facts, goal):
+        """Relevance slicing (dropping assumptions is sound): keep the facts connected to the goal through
+        shared run-specific symbols (inputs, fresh constants, attribute functions)."""
+        import re as _r
+        pat = _r.compile(r"(?<![\w.])(?:pv_[A-Za-z0-9_]+|in_[A-Za-z0-9_]+|attr_[A-Za-z0-9_]+|H_[A-Za-z0-9_]+)")
+        syms = [set(pat.findall(f)) for f in facts]
+        live = set(pat.findall(goal))
+        if not live:
+            return facts
+        keep = [False] * len(facts)
+        changed = True
+        while changed:
+            changed = False
+            for i, s in enumerate(syms):
+                if not keep[i] and (not s or s & live):
+                    keep[i] = True
+                    if not s <= live:
+                        live |= s
+                        changed = True
+        return [f for f, k in zip(facts, keep) if k]
 
     def discharge(self, rep, timeout, keep_dir, pool):
         def run(o):
